@@ -9,13 +9,13 @@ open Babylon.Anyflow.Dep
 
 def bs (b : Bool) : String := if b then "true" else "false"
 def apc : APc → String
-  | .idle => ".idle" | .ldT0 => ".ldT0" | .fin => ".fin" | .ldC1 => ".ldC1" | .trigC => ".trigC"
+  | .idle => ".idle" | .sw n => s!"(.sw {n})" | .est1 => ".est1" | .ldT0 => ".ldT0" | .fin => ".fin" | .ldC1 => ".ldC1" | .trigC => ".trigC"
   | .trigT => ".trigT" | .inv => ".inv" | .done => ".done"
 def cpc : CPc → String
-  | .idle => ".idle" | .cas => ".cas" | .sub1 => ".sub1" | .actT => ".actT" | .sub2 => ".sub2"
+  | .idle => ".idle" | .cas => ".cas" | .sub1 => ".sub1" | .chk n => s!"(.chk {n})" | .aft n => s!"(.aft {n})" | .actT => ".actT" | .sub2 => ".sub2"
   | .rdyLd => ".rdyLd" | .notify => ".notify" | .inv => ".inv" | .done => ".done"
 def tpc : TPc → String
-  | .idle => ".idle" | .cas => ".cas" | .sub => ".sub" | .notify => ".notify" | .inv => ".inv" | .done => ".done"
+  | .idle => ".idle" | .cas => ".cas" | .sub => ".sub" | .chk => ".chk" | .notify => ".notify" | .inv => ".inv" | .done => ".done"
 def lit (s : State) : String :=
   s!"⟨⟨{bs s.cfg.hasCond}, {bs s.cfg.b}⟩, {s.cnt}, {s.vwn}, {bs s.condSealed}, {bs s.tgtSealed}, {bs s.cActive}, {bs s.tActive}, {bs s.est}, {bs s.rdy}, {apc s.a}, {cpc s.c}, {tpc s.t}, {s.notified}, {s.finA}, {s.trigC}, {s.trigT}, {s.actT}, {s.runnable}, {s.invoked}, {bs s.bad}⟩"
 
